@@ -71,6 +71,9 @@ func (sdp *SizeDataPacker) PackDataInChunks(data [][]byte, limit int) ([][]byte,
 				if isMarshaledBuffTooLarge {
 					returningBuff = append(returningBuff, marshaledElements)
 					elements = make([][]byte, 0)
+				} else {
+					lastMarshalized = marshaledElements
+					continue
 				}
 			}
 
